@@ -91,3 +91,69 @@ Theorem FT_other_hints : forall bp gm,
   hb "OtherDataHintsMask" "address_event_counts" = 1%N.
 Proof. intros. split; reflexivity. Qed.
 Print Assumptions FT_other_hints.
+
+(* ---------- member lists of the C++ structures (Gen_structs.v, translator/structs.py) against the descriptors ---------- *)
+Require Import Gen_structs.
+Fixpoint ty_eqb (a b : ty) {struct a} : bool :=
+  match a, b with
+  | TU x, TU y => N.eqb x y
+  | TI, TI | TBool, TBool | TText, TText | TBytes, TBytes | TTime, TTime | TIdx, TIdx => true
+  | TArr x, TArr y => ty_eqb x y
+  | TMap s fs, TMap s' fs' => Bool.eqb s s' && fields_eqb fs fs'
+  | _, _ => false
+  end
+with fields_eqb (a b : fields) {struct a} : bool :=
+  match a, b with
+  | FNil, FNil => true
+  | FCons k p t r, FCons k' p' t' r' =>
+      Z.eqb k k' && (match p, p' with Mand, Mand | MandNE, MandNE | Always, Always | Opt, Opt | NonEmpty, NonEmpty => true | _, _ => false end)
+      && ty_eqb t t' && fields_eqb r r'
+  | _, _ => false
+  end.
+Definition struct_descr : list (string * ty) :=
+  [("StorageHints", StorageHints); ("StorageParameters", StorageParameters); ("CollectionParameters", CollectionParameters);
+   ("BlockParameters", BlockParameters); ("FilePreamble", FilePreamble); ("ClassType", ClassType);
+   ("QueryResponseSignature", QueryResponseSignature); ("Question", Question); ("RR", RR); ("MalformedMessageData", MalformedMessageData);
+   ("ResponseProcessingData", ResponseProcessingData); ("QueryResponseExtended", QueryResponseExtended); ("BlockPreamble", BlockPreamble);
+   ("BlockStatistics", BlockStatistics); ("QueryResponse", QueryResponse); ("AddressEventCount", AddressEventCount);
+   ("MalformedMessage", MalformedMessage)].
+Definition starts_struct (b : string) : option string :=
+  if String.prefix "struct:" b then Some (String.substring 7 (String.length b - 7) b) else None.
+(* the base type of a C++ member against the type of a descriptor member (element type for vectors) *)
+Definition base_ok (b : string) (t : ty) : bool :=
+  match starts_struct b with
+  | Some n => match lookup n struct_descr with Some d => ty_eqb d t | None => false end
+  | None =>
+      match t with
+      | TU bits => String.eqb b (if bits =? 8 then "u8" else if bits =? 16 then "u16" else if bits =? 32 then "u32" else "u64")%N
+      | TI => String.eqb b "i64"
+      | TBool => String.eqb b "bool"
+      | TText | TBytes => String.eqb b "string"
+      | TTime => String.eqb b "time"
+      | _ => false
+      end
+  end.
+(* one member: boost::optional <-> Opt; std::vector <-> an array written iff non-empty (or always / mandatory); plain <-> Mand / Always *)
+Definition member_ok (m : bool * bool * string) (p : presence) (t : ty) : bool :=
+  let '(opt, vec, b) := m in
+  if vec then negb opt && (match p with NonEmpty | Mand | MandNE => true | _ => false end) &&
+              (match t with TArr e => base_ok b e | _ => false end)
+  else if opt then (match p with Opt => true | _ => false end) && base_ok b t
+  else (match p with Mand | Always => true | _ => false end) && base_ok b t.
+Fixpoint members_ok (ms : list (string * (bool * bool * string))) (fs : fields) : bool :=
+  match ms, fs with
+  | [], FNil => true
+  | (_, m) :: ms', FCons _ p t r => member_ok m p t && members_ok ms' r
+  | _, _ => false
+  end.
+(* the two time members travel as a tick offset (uint64) in the file: CdnsBlock::write / CdnsBlockRead::read convert (C17) *)
+Definition time_as_offset (s : string) (ms : list (string * (bool * bool * string))) : list (string * (bool * bool * string)) :=
+  if String.eqb s "QueryResponse" || String.eqb s "MalformedMessage"
+  then match ms with (n, (o, v, _)) :: r => (n, (o, v, "u64")) :: r | [] => [] end else ms.
+Theorem FT_struct_members :
+  forallb (fun sd => match lookup (fst sd) gen_structs, snd sd with
+                     | Some ms, TMap _ fs => members_ok (time_as_offset (fst sd) ms) fs
+                     | _, _ => false
+                     end) struct_descr = true.
+Proof. vm_compute. reflexivity. Qed.
+Print Assumptions FT_struct_members.
